@@ -49,9 +49,15 @@ func (c cfg) params() (rlwe.Parameters, error) {
 	return rlwe.NewParametersFromLiteral(rlwe.ParametersLiteral{LogN: c.LogN, Q: c.Q, P: c.P, Xs: xs, RingType: rt, NTTFlag: true})
 }
 
+// extraCases lets other files of this package contribute case families (ring packing, domain switch).
+var extraCases []func(tier string, seed int64) []eng.Case
+
 func cases(tier string, seed int64) []eng.Case {
 	r := eng.NewRand("c04-cases", seed)
 	var out []eng.Case
+	for _, f := range extraCases {
+		out = append(out, f(tier, seed)...)
+	}
 	n := 240
 	if tier == "thorough" {
 		n = 3000
